@@ -9,6 +9,10 @@
 (*          check_claim / set_footer; tokens authentic, tampered, with and *)
 (*          without footer; both keys                                      *)
 (*   "c11": PasetoParser::default(); tokens with every (exp, nbf) class    *)
+(*   "c05": set_footer / set_implicit_assertion histories incl. resetting  *)
+(*          to the empty string and reconfiguring between parses; tokens   *)
+(*          minted with every (footer, assertion) pair (C05 / C06 at the   *)
+(*          parser layers; "c05p" the same on PasetoParser)                *)
 (* The properties of Parser.tla are checked for every parse; every history *)
 (* ending in a parse is printed for replay.                                *)
 (***************************************************************************)
@@ -21,13 +25,17 @@ vars == <<ps, hist, ncfg, nparse>>
 
 \* families c15p / c16p: the same histories on PasetoParser (which delegates to a GenericParser and
 \* always carries the default exp / nbf validators)
-Base == IF Family = "c15p" THEN "c15" ELSE IF Family = "c16p" THEN "c16" ELSE Family
-Layer == IF Family \in {"c11", "c11t", "c15p", "c16p"} THEN "prelude" ELSE "generic"
+Base == IF Family = "c15p" THEN "c15" ELSE IF Family = "c16p" THEN "c16" ELSE IF Family = "c05p" THEN "c05" ELSE Family
+Layer == IF Family \in {"c11", "c11t", "c15p", "c16p", "c05p"} THEN "prelude" ELSE "generic"
 K2 == IF Family = "c15p" THEN "iat" ELSE "ca"
 Pr == <<4, "local">>
 
 NoClaims == [k \in PKeys |-> "absent"]
 Org(f) == Origin(Pr, "k1", "s1", "m1", f, "none")
+OrgFA(f, a) == Origin(Pr, "k1", "s1", "m1", f, a)
+\* footers / assertions of family c05 (Small: one value each)
+C05F == IF Small THEN {"f1"} ELSE {"f1", "f2"}
+C05A == IF Small THEN {"a1"} ELSE {"a1", "a2"}
 
 TokTable ==
   CASE Base = "c15" ->
@@ -44,6 +52,10 @@ TokTable ==
             ELSE IF i = Len(seq) + 1
             THEN Tok(Org("none"), E("flip", "tag", ""), TRUE, [NoClaims EXCEPT !["ca"] = "v1", !["cb"] = "v1"])
             ELSE Tok(Org("none"), NoEdit, FALSE, NoClaims)]
+    [] Base = "c05" ->
+         LET S == {<<f, a>> : f \in {"none"} \cup C05F, a \in {"none"} \cup C05A} IN
+         LET seq == SetToSeq(S) IN
+         [i \in 1..Len(seq) |-> Tok(OrgFA(seq[i][1], seq[i][2]), NoEdit, TRUE, NoClaims)]
     [] Family = "c11t" ->
          \* time passes: tokens whose exp / nbf lies a few seconds after the start of the history
          <<Tok(Org("none"), NoEdit, TRUE, [NoClaims EXCEPT !["exp"] = SoonVal]),
@@ -71,10 +83,12 @@ CfgOps ==
                            \cup {Op4("extvalid", k, kind, 0) : k \in {"ca", "cb"}, kind \in {"accept", "reject", "magic"}}
                            \cup {Op4("check", k, "v1", 0) : k \in {"ca", "cb"}}
                            \cup {Op4("footer", "", "f1", 0)}
+    [] Base = "c05" -> {Op4("footer", "", f, 0) : f \in C05F \cup {"empty"}}
+                         \cup {Op4("assertion", "", a, 0) : a \in C05A \cup {"empty"}}
     [] Family = "c11" -> {Op4("check", "exp", "v1", 0), Op4("check", "nbf", "v1", 0), Op4("check", "iss", "v1", 0)}
 
 ParseOps ==
-  {Op4("parse", key, "", t) : key \in (IF Base \in {"c11", "c11t"} THEN {"k1"} ELSE {"k1", "k2"}), t \in 1..Len(TokTable)}
+  {Op4("parse", key, "", t) : key \in (IF Base \in {"c11", "c11t", "c05"} THEN {"k1"} ELSE {"k1", "k2"}), t \in 1..Len(TokTable)}
 
 Init == ps = PInit(Layer, Pr) /\ hist = <<>> /\ ncfg = 0 /\ nparse = 0
 
@@ -101,6 +115,7 @@ Inv_ExpectIff  == AtParse => ExpectIff(ps, TokTable[LastOp.t], LastOp.k)        
 Inv_Validators == AtParse => ValidatorDiscipline(ps, TokTable[LastOp.t], LastOp.k)  \* C16
 Inv_ExpRejects == AtParse => ExpRejects(ps, TokTable[LastOp.t], LastOp.k)           \* C11
 Inv_NbfRejects == AtParse => NbfRejects(ps, TokTable[LastOp.t], LastOp.k)           \* C12
+Inv_FootAssert == AtParse => FooterAssertionIff(ps, TokTable[LastOp.t], LastOp.k)   \* C05 / C06
 Inv_Allowed    == AtParse => ModelAllowed(ps, TokTable[LastOp.t], LastOp.k)
 \* C15: parsing never changes the parser
 Inv_ParsePure  == [][\A o \in ParseOps : Parse(o) => ps' = ps]_vars
